@@ -22,9 +22,9 @@ for line in src:
         theorems.append((name, lemma))
     elif line.strip() == "RAW":
         mode = "raw"
-base = "Num Assoc AssocFacts Rng Par CF CFInv CFClean CFForget CFSpec Matrix Lin Warm WarmInv Nbr NbrFacts NbrIndep Clu Tree Mab FacadeCF FacadeArms NumLaws QcInst".split()
+base = "Num Assoc AssocFacts Rng Par CF CFInv CFClean CFForget CFSpec Matrix Lin Warm WarmInv Nbr NbrFacts NbrIndep LshFacts Clu Tree CellFacts Mab FacadeCF FacadeArms MoreFacts NumLaws CFAlg Sim Extra QcInst".split()
 mods = base + [m for m in imports if m not in base]
-pre = "From Coq Require Import List ZArith Bool Arith QArith Qcanon.\nFrom MW Require Import %s.\nImport ListNotations.\n" % " ".join(mods)
+pre = "From Coq Require Import List ZArith Bool Arith QArith Qcanon Permutation.\nFrom MW Require Import %s.\nImport ListNotations.\n" % " ".join(mods)
 chk = pre + "Set Printing Width 110.\nSet Printing Depth 200.\n" + "".join("Check @%s.\n" % l for _, l in theorems)
 open("/tmp/genprops_%s.v" % prop, "w").write(chk)
 out = subprocess.run("cd %s && coqc -Q theories MW /tmp/genprops_%s.v" % (root, prop), shell=True, stdout=subprocess.PIPE, stderr=subprocess.STDOUT, text=True).stdout
@@ -33,7 +33,7 @@ if len(blocks) != len(theorems):
     print(out[-3000:]); sys.exit("could not read the types of all lemmas (%d of %d)" % (len(blocks), len(theorems)))
 TYPES = {"nbr": "@nbr R A G", "cf": "@cf R A", "lp": "@lp R A G", "mab": "@mab R A G", "mat": "@mat R", "op": "@op R A",
          "out": "@out R A", "oracle": "@oracle R A", "ctxs": "@ctxs R", "cfop": "@cfop R A", "lin": "@lin R A G",
-         "clu": "@clu R A G", "tree": "@tree R A", "imp": "@imp R A G", "armst": "@armst R", "status": "@status A"}
+         "clu": "@clu R A G", "tree": "@tree R A", "ridge": "@ridge R G", "vec": "@vec R", "imp": "@imp R A G", "armst": "@armst R", "status": "@status A"}
 def fix_implicits(ty):
     # give the record types their parameters where Coq printed them bare
     def rep(m):
